@@ -10,6 +10,7 @@ import (
 	"io"
 	"net"
 	"os"
+	"reflect"
 	"strings"
 	"sync"
 	"time"
@@ -50,6 +51,7 @@ type scriptedConn struct {
 	quietStall  bool // a silent serial line is reported as (0, nil) instead of a deadline error
 	shortWrite  bool // the first Write takes all but the last byte
 	partialFail bool // a failing Write reports that it took some of the bytes before it failed
+	noDeadlines bool // SetReadDeadline is not supported by this transport (a tunnel, a pipe): it reports an error
 	writes      int
 	lastErr     error // the error value the last Read returned
 	slowBy      time.Duration
@@ -172,8 +174,11 @@ func (c *scriptedConn) SetDeadline(t time.Time) error      { return nil }
 func (c *scriptedConn) SetWriteDeadline(t time.Time) error { return nil }
 func (c *scriptedConn) SetReadDeadline(t time.Time) error {
 	c.mu.Lock()
+	defer c.mu.Unlock()
+	if c.noDeadlines {
+		return errors.New("deadlines are not supported by this transport")
+	}
 	c.deadline = t
-	c.mu.Unlock()
 	return nil
 }
 
@@ -190,6 +195,22 @@ func (s serialFlush) Flush() error {
 	}
 	return nil
 }
+
+// zeroHooks is a stateless hooks VALUE (the zero value of its type): it reports to the recorder registered for the
+// goroutine that makes the call
+type zeroHooks struct{}
+
+var zeroHookRecs sync.Map // goroutine id -> *hookRec
+
+func (zeroHooks) rec() *hookRec {
+	if r, ok := zeroHookRecs.Load(goid()); ok {
+		return r.(*hookRec)
+	}
+	return &hookRec{}
+}
+func (z zeroHooks) BeforeWrite(b []byte)                     { z.rec().BeforeWrite(b) }
+func (z zeroHooks) AfterEachRead(b []byte, n int, err error) { z.rec().AfterEachRead(b, n, err) }
+func (z zeroHooks) BeforeParse(b []byte)                     { z.rec().BeforeParse(b) }
 
 type hookRec struct {
 	mu     sync.Mutex
@@ -492,7 +513,8 @@ func runDoOnce(kind string, hooks bool, flusher string, reqSpec string, script s
 	}
 	conn := &scriptedConn{script: evs, writeFails: writeFails, cancel: cancel, serial: kind == "s",
 		closedErr: variantOf("x"+reqSpec+script)%2 == 1, quietStall: variantOf("q"+reqSpec+script)%2 == 1,
-		shortWrite: kind == "s" && variantOf("sw"+reqSpec+script)%3 == 1, partialFail: variantOf("pf"+reqSpec+script)%2 == 1}
+		shortWrite: kind == "s" && variantOf("sw"+reqSpec+script)%3 == 1, partialFail: variantOf("pf"+reqSpec+script)%2 == 1,
+		noDeadlines: kind != "s" && variantOf("nd"+reqSpec+script)%5 == 0}
 	rec := &hookRec{conn: conn}
 	failedConnect := strings.HasPrefix(reqSpec, "ncf:")
 	notConnected := strings.HasPrefix(reqSpec, "nc:") || failedConnect
@@ -607,8 +629,9 @@ func runDoOnce(kind string, hooks bool, flusher string, reqSpec string, script s
 			}
 			return
 		}
-		if err != nil && scale > 0 && len(reply) > 0 && !notConnected && req != nil && freshDo != nil &&
-			(strings.Contains(clientErrStr(err), "exc") || variantOf("second"+reqSpec+script)%3 == 0) {
+		if scale > 0 && len(reply) > 0 && !notConnected && req != nil && freshDo != nil &&
+			((err != nil && (strings.Contains(clientErrStr(err), "exc") || variantOf("second"+reqSpec+script)%3 == 0)) ||
+				(err == nil && strings.Contains(script, "sd:"))) {
 			// the exchange failed; the next exchange on the same client is treated like the first exchange on a new client
 			// (the reply is delivered whole, then the line fails). Timeouts are the machine's business and say nothing.
 			render := func(r packet.Response, e error) string {
@@ -621,6 +644,7 @@ func runDoOnce(kind string, hooks bool, flusher string, reqSpec string, script s
 				return "ok " + respStr(r)
 			}
 			second := ""
+			tooEarly := false
 			for attempt := 0; attempt < 3; attempt++ {
 				conn.mu.Lock()
 				conn.script = []readEv{{kind: "d", data: append([]byte{}, reply...)}, {kind: "x"}}
@@ -635,10 +659,15 @@ func runDoOnce(kind string, hooks bool, flusher string, reqSpec string, script s
 							e2 = errors.New("PANIC")
 						}
 					}()
+					t0 := time.Now()
 					r2, e2 = again()
+					// "total read timeout exceeded" before the total read timeout can have passed is not the machine's doing
+					if e2 != nil && strings.Contains(clientErrStr(e2), "client:timeout") && time.Since(t0) < readTimeout*7/10 {
+						tooEarly = true
+					}
 				}()
 				second = render(r2, e2)
-				if !strings.Contains(second, "client:timeout") {
+				if tooEarly || !strings.Contains(second, "client:timeout") {
 					break
 				}
 			}
@@ -649,7 +678,9 @@ func runDoOnce(kind string, hooks bool, flusher string, reqSpec string, script s
 					break
 				}
 			}
-			if second != fresh && !strings.Contains(second, "client:timeout") && !strings.Contains(fresh, "client:timeout") {
+			if tooEarly {
+				secondCall = "CALL-AFTER-A-FAILED-ONE-DIFFERS-FROM-THE-FIRST-CALL-OF-A-NEW-CLIENT:timeout-reported-before-the-read-timeout-had-passed"
+			} else if second != fresh && !strings.Contains(second, "client:timeout") && !strings.Contains(fresh, "client:timeout") {
 				secondCall = "CALL-AFTER-A-FAILED-ONE-DIFFERS-FROM-THE-FIRST-CALL-OF-A-NEW-CLIENT:" + strings.ReplaceAll(second, " ", "_")
 			}
 			return
@@ -732,17 +763,37 @@ func runDoOnce(kind string, hooks bool, flusher string, reqSpec string, script s
 		conn.mu.Lock()
 		conn.script = []readEv{{kind: "d", data: inv}, {kind: "x"}}
 		conn.pending = nil
+		writtenBefore := len(conn.written)
 		conn.mu.Unlock()
+		// the caller re-targets the request value it holds before it sends it again (the same pointer, other contents):
+		// what goes out is the request as it is now
+		scribbleValue(reflect.ValueOf(req))
+		var now []byte
+		func() {
+			defer func() { _ = recover() }()
+			now = req.Bytes()
+		}()
 		func() {
 			defer func() { _ = recover() }()
 			_, _ = again()
 		}()
+		conn.mu.Lock()
+		sent := append([]byte{}, conn.written[writtenBefore:]...)
+		conn.mu.Unlock()
+		if now != nil && len(sent) > 0 && hx(sent) != hx(now) {
+			secondCall = "REQUEST-CHANGED-BETWEEN-CALLS-BUT-THE-OLD-BYTES-WERE-SENT"
+		}
 		if respStr(resp) != before {
 			aliased = true
 		}
 	}
 	done := make(chan struct{})
+	valueHooks := hooks && variantOf("zh"+reqSpec+script)%5 == 0
 	go func() {
+		if valueHooks {
+			zeroHookRecs.Store(goid(), rec)
+			defer zeroHookRecs.Delete(goid())
+		}
 		defer func() {
 			if r := recover(); r != nil {
 				err = fmt.Errorf("PANIC")
@@ -761,14 +812,18 @@ func runDoOnce(kind string, hooks bool, flusher string, reqSpec string, script s
 				port = serialNoFlush{conn}
 			}
 			opts := []modbus.SerialClientOptionFunc{modbus.WithSerialReadTimeout(readTimeout)}
-			if hooks {
+			if valueHooks {
+				opts = append(opts, modbus.WithSerialHooks(zeroHooks{}))
+			} else if hooks {
 				opts = append(opts, modbus.WithSerialHooks(rec))
 			} else if variantOf(reqSpec+script)%3 == 1 {
 				// "no hooks" said explicitly (an optional logger that is nil)
 				opts = append(opts, modbus.WithSerialHooks(nil))
 			}
 			var c *modbus.SerialClient
-			if notConnected {
+			if notConnected && variantOf("zv"+reqSpec+script)%2 == 1 {
+				c = &modbus.SerialClient{} // a client that was not made by the constructor
+			} else if notConnected {
 				c = modbus.NewSerialClient(nil, opts...)
 			} else {
 				c = modbus.NewSerialClient(port, opts...)
@@ -806,9 +861,15 @@ func runDoOnce(kind string, hooks bool, flusher string, reqSpec string, script s
 		if hooks {
 			conf.Hooks = rec
 		}
+		if valueHooks {
+			conf.Hooks = zeroHooks{}
+		}
 		// every way of constructing a client of this framing: the WithConfig constructors, and NewClient with none, one
 		// or both protocol functions given (TCP is the documented default of NewClient)
 		c := newNetClient(kind, conf, variantOf(kind+reqSpec+script), rec)
+		if notConnected && !failedConnect && variantOf("zv"+reqSpec+script)%2 == 1 {
+			c = &modbus.Client{} // a client that was not made by a constructor
+		}
 		if failedConnect {
 			// a Connect that fails although the dial function hands back a connection value: the client stays unconnected
 			failing := conf
@@ -900,6 +961,14 @@ func runDoOnce(kind string, hooks bool, flusher string, reqSpec string, script s
 			out = append(out, "stall")
 		}
 		log = out
+	}
+	if stalled == 0 && scale > 0 && !snap.unread && strings.HasSuffix(outcome, "err client:timeout") {
+		// the script was served to its end and the total read timeout passed before the client got to its next read (the
+		// process was not given the CPU in between): for the record this is a stall like any other
+		served = append(served, "stall")
+		if len(log) > 0 {
+			log = append(log, "stall")
+		}
 	}
 	ls := "-"
 	if len(log) > 0 {
